@@ -19,6 +19,16 @@ def strip(e):
     return e
 
 
+def nested_view(fn):
+    """the facts normaliser writes the tail of a void function in guard-clause form (`if (!c) return; REST`); a stream writer is
+    void and its byte twin returns the vector, so for the twin comparison both are read in the nested form `if (c) { REST }`"""
+    from vlib import normalize
+    body = fn.get("body")
+    if isinstance(body, dict) and body.get("k") == "Block" and fn.get("ret") == "void":
+        return dict(body, s=normalize.nest_guards(body.get("s", []), "Return"))
+    return body
+
+
 class Norm:
     """expression normaliser -> canonical string"""
 
@@ -65,6 +75,8 @@ class Norm:
             inner = self.key(e["e"], depth)
             if e["op"] == "!" and inner.startswith("!"):
                 return inner[1:]
+            if e["op"] == "!" and inner.startswith("(0==") and inner.endswith(")"):
+                return inner[4:-1]   # !(0 == x) is the truthiness of x, like 0 != x and x > 0 (unsigned)
             return e["op"] + inner if not e.get("post") else inner + e["op"]
         if k == "Bin":
             l, r = self.key(e["l"], depth), self.key(e["r"], depth)
@@ -158,9 +170,7 @@ class Extractor:
                 sub = self.block(fn, c, mode, N)
                 # early return normalisation: if (c) return;  rest  ==> If(c, [Ret], rest)
                 if c["k"] == "If" and sub and sub[0][0] == "If" and self.ends_with_ret(sub[0][2]) and not sub[0][3]:
-                    rest = []
-                    for c2 in items[i + 1:]:
-                        rest.extend(self.block(fn, c2, mode, N))
+                    rest = self.block(fn, {"k": "Block", "s": items[i + 1:]}, mode, N)   # recursively: later guards nest the same way
                     then = [x for x in sub[0][2] if x[0] != "Ret"]
                     out.append(("If", sub[0][1], then, rest))
                     return out
@@ -326,10 +336,10 @@ def canon(items):
             if not t and not e:
                 continue
             if not t and e:
-                c = c[1:] if c.startswith("!") else "!" + c
+                c = c[1:] if c.startswith("!") else (c[4:-1] if c.startswith("(0==") and c.endswith(")") else "!" + c)
                 t, e = e, t
             # zero-length guards: if (n) Serde(n)
-            if len(t) == 1 and not e and t[0][0] in ("Serde", "Raw") and (c == t[0][1] or c == t[0][1] + ".size()" or t[0][1].startswith(c)):
+            if len(t) == 1 and not e and t[0][0] in ("Serde", "Raw") and (c == t[0][1] or c == t[0][1] + ".size()" or t[0][1].startswith(c) or ("*" + c + ")") in t[0][1] or ("(" + c + "*") in t[0][1]):
                 out.append(t[0])
                 continue
             out.append(("If", c, tuple(t), tuple(e)))
